@@ -45,6 +45,7 @@ type Cfg struct {
 	InheritedCaseCollision bool // with NameStress: a derived service may declare `call` when its base has `Call` (known finding)
 	HelperNames            bool // with NameStress: also names equal to unreserved generated helpers (known finding names-of-generated-helpers)
 	CompatNames            bool // with NameStress: also names that need the compatible_names option (NewX, XArgs, XResult)
+	WideStructs            bool // some structs have 9-36 fields (more than one bookkeeping word of required-field bits)
 	ArgDefaults            bool // function arguments may carry default values (the grammar allows it)
 	NoZeroThrowsID         bool // no throws entry has id 0 (it would share the id of `success` in the result struct)
 }
@@ -65,7 +66,7 @@ func GoSafe() Cfg {
 func Full() Cfg {
 	return Cfg{MaxFiles: 4, MaxDefs: 4, Annotations: true, NastyLits: true, CppStuff: true, Consts: true, Defaults: true,
 		Services: true, NegIDs: true, ExpDoubles: true, HexIDs: true, IntSpell: true, SameBase: true, EnumViaTypedef: true,
-		EnumViaTypedefFar: true, ArgDefaults: true, EmptyEnums: true, Comments: true, SelfRef: true, MapStructKey: true, RawCtl: true, UnionDefaults: true}
+		EnumViaTypedefFar: true, WideStructs: true, ArgDefaults: true, EmptyEnums: true, Comments: true, SelfRef: true, MapStructKey: true, RawCtl: true, UnionDefaults: true}
 }
 
 type gen struct {
@@ -528,6 +529,9 @@ func (g *gen) genTypedef() {
 
 func (g *gen) genFields(kind string) []*Field {
 	n := g.intn(0, 6, "nfields")
+	if g.cfg.WideStructs && (kind == "struct" || kind == "exception") && g.p(1, 12, "widestruct") {
+		n = g.intn(9, 36, "nfieldswide") // more fields than one 8/16/32-bit bookkeeping word
+	}
 	var fs []*Field
 	used := map[int32]bool{}
 	last := int32(0)
